@@ -61,6 +61,7 @@ func main() {
 	grow := fl.Bool("grow", false, "stress: workers insert new keys (index growth during compaction and scans)")
 	sessions := fl.Bool("sessions", false, "restart-centred patterns (compaction-only sessions, equal-count sessions, bursts after reopen)")
 	compactHeavy := fl.Bool("compactheavy", false, "fill several segments with live and dead records, then compact (promotions overflow the current segment)")
+	oneClass := fl.Bool("oneclass", false, "seq: all keys share one low-bit class (very long bucket chains)")
 	in := fl.String("in", "", "program file (ndjson) to replay instead of random programs")
 	fl.Parse(os.Args[2:])
 	t0 := time.Now()
@@ -146,6 +147,10 @@ func main() {
 			var keys []string
 			bits := uint(1 + rng.Intn(3))
 			per := *nkeys / 2
+			if *oneClass {
+				// one long chain: 5+ buckets, splits that keep 63+ slots on one side
+				per, bits = *nkeys, 2+uint(rng.Intn(2))
+			}
 			class1 := uint32(rng.Intn(8))
 			keys = append(keys, ks.InClass(bits, class1, per)...)
 			keys = append(keys, ks.InClass(bits+1, uint32(rng.Intn(16)), *nkeys-per)...)
@@ -368,7 +373,7 @@ func main() {
 			keys := append(ks.InClass(2, uint32(i), *nkeys/2), ks.Plain(*nkeys-*nkeys/2)...)
 			cfg := h.SmallCfg(rng, false)
 			p := h.GenProgram(rng, fmt.Sprintf("diff-%d-%d", *seed, i), cfg, h.GenOpts{Keys: keys, Ops: *nops, BigVals: true, Compact: true,
-				Reopen: true, Sync: true, Reads: true, Churn: true, Tear: true})
+				Reopen: true, Sync: true, Reads: true, Churn: true, Tear: true, Huge: true})
 			h.Diff(rec, p, *dir, *seed+int64(i))
 			tot["programs"]++
 			tot["ops"] += len(p.Ops) * 4
